@@ -25,6 +25,7 @@ struct VecInfo<amc::Vector<T, Alloc, SizeType, GP, N> > {
   typedef Alloc alloc;
   typedef SizeType size_type;
   static constexpr bool kFixed = std::is_same<Alloc, amc::vec::EmptyAlloc>::value;
+  static constexpr bool kUnchecked = std::is_same<GP, amc::vec::UncheckedGrowingPolicy>::value;  // exceeding N is outside the contract (no exception)
   static constexpr bool kSmall = !kFixed && N != 0;
   static constexpr bool kPlain = !kFixed && N == 0;
   enum : uintmax_t { kN = N };  // an enumerator: usable by reference before C++17 without an out-of-class definition
